@@ -197,6 +197,7 @@ def run_harness(ROOT, GOENV, scn, seed, n, flt=None, extra=None, timeout=1800, r
     (dict); a crashed case gets obs.outcome = 'crash'.  With race_out (a list) the binary built
     with the race detector is used and its reports are appended to race_out."""
     hb = os.path.join(ROOT, "harness", "harness_race" if race_out is not None else "harness")
+    run_harness.truncated = False
     cases = []
     start = 0
     crashes = 0
@@ -214,11 +215,13 @@ def run_harness(ROOT, GOENV, scn, seed, n, flt=None, extra=None, timeout=1800, r
         p = subprocess.Popen(cmd, stdout=subprocess.PIPE, stderr=subprocess.PIPE, env=env)
         pending = None
         last_i = start - 1
+        timed_out = False
         try:
             out, err = p.communicate(timeout=max(10, t_end - time.time()))
         except subprocess.TimeoutExpired:
             p.kill()
             out, err = p.communicate()
+            timed_out = True
         if race_out is not None:
             race_out.extend(parse_race_reports(err.decode("utf-8", "replace"), repo))
         for line in out.decode("utf-8", "replace").split("\n"):
@@ -238,6 +241,10 @@ def run_harness(ROOT, GOENV, scn, seed, n, flt=None, extra=None, timeout=1800, r
             last_i = c.get("i", last_i)
             pending = None
         if p.returncode == 0:
+            break
+        if timed_out:
+            # the time budget of this scenario is used up: keep what was run, blame no case
+            run_harness.truncated = True
             break
         if p.returncode == 3 and pending is None:
             # the harness asked for a fresh process after a case that hung
@@ -365,8 +372,19 @@ def check(ROOT, REPO, LEAN, GOENV, pid, prop, tier, seed):
                 if rrc != 0:
                     broken.append("tool:harness_race build: " + rout[-800:])
                     continue
+            # time budget per scenario: many times what the unchanged tree needs (under a minute in
+            # the quick tier); only a tree on which requests hang or time out can reach it
             cases = run_harness(ROOT, GOENV, sc["scn"], seed, n * boost, sc.get("filter"), sc.get("extra"),
+                                timeout=240 if tier == "quick" else 5400,
                                 race_out=race_reports, repo=REPO, env_extra=sc.get("env"))
+            if run_harness.truncated:
+                issues.append({"scn": sc["scn"], "aspect": "driver", "kind": "impl-vs-model", "method": sc.get("filter"),
+                               "detail": "scenario %s/%s used up its time budget after %d of %d cases (the unchanged tree needs well under a minute): requests hang or time out"
+                                         % (sc["scn"], sc.get("filter"), len(cases), n * boost),
+                               "case": {"scn": sc["scn"], "filter": sc.get("filter"), "note": "time budget"}, "drv": None})
+                n_run = len(cases)
+            else:
+                n_run = None
             if race_reports:
                 seen_r = set()
                 for rp in race_reports:
@@ -383,7 +401,7 @@ def check(ROOT, REPO, LEAN, GOENV, pid, prop, tier, seed):
                                    "case": {"scn": "race", "scenario": sc["scn"], "filter": sc.get("filter"), "seed": seed, "n": n * boost, "env": sc.get("env"),
                                             "report": rp["text"]},
                                    "drv": None})
-            if len(cases) != n * boost:
+            if n_run is None and len(cases) != n * boost:
                 issues.append({"scn": sc["scn"], "aspect": "driver", "kind": "impl-vs-model", "method": sc.get("filter"),
                                "detail": "the harness returned %d cases of %d requested (a protocol line was lost)" % (len(cases), n * boost),
                                "case": {"scn": sc["scn"], "filter": sc.get("filter"), "note": "case count"}, "drv": None})
